@@ -132,6 +132,7 @@ def run_property(prop, tier, only_unit=None):
     unit_infos = {}
     inconclusive = []
     # prepare units (extraction + C++ compile) in parallel, then all harnesses in parallel
+    R.TIER = tier
     with cf.ThreadPoolExecutor(max_workers=16) as ex:
         futs = {}
         for u, hs in jobs:
